@@ -405,15 +405,11 @@ func main() {
 			}
 			if !same(ys[i], gs[i]) {
 				in := c
-				if shrunk < 2 && os.Getenv("VERIF_NOSHRINK") == "" && c.Feat["switch-tagless-case-list"] == 0 {
+				if shrunk < 2 && os.Getenv("VERIF_NOSHRINK") == "" {
 					shrunk++
 					in = progCase{Src: shrink(c.Src)}
 				}
 				d := common.Disagreement{Kind: "impl-vs-ref", Input: in, Impl: ys[i].String(), Ref: gs[i].String()}
-				if c.Feat["switch-tagless-case-list"] > 0 {
-					// divergence class of F53 (decidable on the input): a tagless switch with a clause of two or more expressions
-					d.Finding = "tagless-switch-case-list"
-				}
 				run.Disagree(d)
 			}
 		}
